@@ -135,6 +135,11 @@ def run_check(pid, tier, seed):
                 merge(acc, {"violations": [v]})
             else:
                 harness_errors.append(f"shard {idx} hang: {payload}")
+        elif "worker died" in str(payload) and getattr(mod, "CRASH_IS_VIOLATION", False):
+            # the library took the whole interpreter down on a legal input: it did not return
+            v = {"sig": "crash-" + h(tasks[idx]), "msg": f"no return: the process died while evaluating this shard ({payload})",
+                 "case": {"kind": "shard", "task": tasks[idx]}}
+            merge(acc, {"violations": [v]})
         else:
             harness_errors.append(f"shard {idx}: {payload}")
     wall = time.time() - t0
